@@ -332,3 +332,11 @@ R("C07", "refactor-rename-temp", BETA, "        rfdot = sqrt(p_L) / r\n", "     
 M("C18", "sun-formula", SOL, "        r = 1.000140612 - 0.016708617 * np.cos(M) - 0.000139589 * np.cos(2 * M)", "        r = 1.000140612 - 0.016708617 * np.sin(M) - 0.000139589 * np.cos(2 * M)", "R18.2")
 M("C02", "nutation-argument-sign", I80, "        - (5 * r + 134.1362608) * ttt\n        + 0.0020708 * ttt ** 2\n        + 2.2e-6 * ttt ** 3", "        + (5 * r + 134.1362608) * ttt\n        + 0.0020708 * ttt ** 2\n        + 2.2e-6 * ttt ** 3", "R02.8")
 R("C02", "refactor-commute", I80, "    theta = (2004.3109 * t - 0.42665 * t ** 2 - 0.041833 * t ** 3) / 3600.0", "    theta = (t * 2004.3109 - 0.42665 * t * t - t ** 3 * 0.041833) / 3600.0")
+
+# rename-only refactors: the alpha-restoring loader must make every rule blind to them
+R("C03", "rename-locals-add", DATE, "            days, sec = divmod(other.total_seconds() + self.s, 86400)\n        else:\n            raise TypeError(f\"Unknown operation with {type(other)}\")\n\n        return self.__class__(self.d + int(days), sec, scale=self.scale)", "            dd, ss = divmod(other.total_seconds() + self.s, 86400)\n        else:\n            raise TypeError(f\"Unknown operation with {type(other)}\")\n\n        return self.__class__(self.d + int(dd), ss, scale=self.scale)")
+CORPUS.setdefault("C06", []).append(("rename-locals-make-step", "silent", [
+    (KN, "            p_error = linalg.norm(error[:3])", "            perr = linalg.norm(error[:3])"),
+    (KN, "            if p_error <= self.tol:", "            if perr <= self.tol:"),
+    (KN, "step * (self.tol / (2 * p_error)) ** (1 / (len(bb) - 1))", "step * (self.tol / (2 * perr)) ** (1 / (len(bb) - 1))"),
+], None))
